@@ -22,6 +22,12 @@ PinsFit(e, sp) ==
             /\ sp.haspos /\ p # <<0, 0>> /\ p[2] <= Len(sp.cls)
             /\ FitsClasses(e.vals[e.pinned[j]], SubSeq(sp.cls, p[1] + 1, p[2]))
 
+\* the reproducibility clause: the same call, equally seeded, observed twice (a second time in the same
+\* process with a plain generator; in other processes under other hash seeds) - same outcome
+ReproOutcome(e) ==
+    IF e.first = e.second THEN "ok"
+    ELSE IF e.where = "process" THEN "not-reproducible-in-process" ELSE "not-reproducible-across-processes"
+
 RandomOutcome(e) ==
     LET o == e.out
         req == IF Len(e.country) = 2 THEN <<e.country[1], e.country[2]>> ELSE <<>>
